@@ -441,7 +441,7 @@ def replay(key, obligation, witness):
     return False, "no concrete replay for this obligation (structural)"
 
 
-def _real_scene(T=12, gradient_config=None, n=6, dirty=True):
+def _real_scene(T=12, gradient_config=None, n=6, dirty=True, dtype=None):
     import jax
     import jax.numpy as jnp
     import numpy as np
@@ -449,7 +449,7 @@ def _real_scene(T=12, gradient_config=None, n=6, dirty=True):
     import fdtdx
     from fdtdx.core.wavelength import WaveCharacter
 
-    cfg = fdtdx.SimulationConfig(time=1e-15, grid=fdtdx.UniformGrid(spacing=2e-8), backend="cpu", dtype=jnp.float64, gradient_config=gradient_config)
+    cfg = fdtdx.SimulationConfig(time=1e-15, grid=fdtdx.UniformGrid(spacing=2e-8), backend="cpu", dtype=dtype or jnp.float64, gradient_config=gradient_config)
     cfg = cfg.aset("time", (T + 0.2) * cfg.time_step_duration)
     vol = fdtdx.SimulationVolume(partial_real_shape=(n * 2e-8,) * 3)
     objs, cons = [vol], []
